@@ -7,7 +7,7 @@
    Property theorems only, each closed by `exact` + Print Assumptions. *)
 From Coq Require Import String.
 From Coq Require Import Reals Lra List Bool QArith Permutation.
-From PG Require Import Lib.Num Lib.Py Fit.FitLogic Fit.FitTheorems Fit.FitCovariance.
+From PG Require Import Lib.Num Lib.Py Fit.FitLogic Fit.FitTheorems Fit.FitCovariance Fit.FitPre Gen.FitGlueGen Fit.FitGlue.
 Import ListNotations.
 Open Scope R_scope.
 
@@ -41,6 +41,39 @@ Theorem rmse_sq_is_rmse_squared : forall f n range, (0 < n)%nat -> range <> 0 ->
   rmse_sq RNum f n range = rmse f n range * rmse f n range.
 Proof. exact rmse_sq_is_square. Qed.
 Print Assumptions rmse_sq_is_rmse_squared.
+
+(* the same for the expression GENERATED from the source line `self.rmse = ...` of IsothermBaseModel.fit / Virial.fit (Gen/FitGlueGen.v, by
+   tools/py2v_fitglue.py; the rest of fit is checked statement by statement by the translator): it is the documented error of the residual
+   vector, whatever cost / optimality the optimiser reports - so it stays the actual deviation under every `optimization_params` (robust
+   losses make opt_res.cost differ from half the sum of squares) *)
+Theorem generated_rmse_expression_is_documented :
+  (forall fv x cost opt pr ld range, BaseFit_rmse fv x cost opt pr ld range = sqrt (sumsqR fv / INR (length ld)) / range)
+  /\ (forall fv x cost opt pr ld, VirialFit_rmse fv x cost opt pr ld = sqrt (sumsqR fv / INR (length ld))).
+Proof. exact (conj base_rmse_is_documented virial_rmse_is_documented). Qed.
+Print Assumptions generated_rmse_expression_is_documented.
+(* fit assembled from the generated residual, range and error expressions: whenever it succeeds the parameters respect the bounds and the
+   reported error is the root-mean-square deviation between the fitted model at the RETURNED parameters and the data, divided by the range.
+   Partial: premise on least_squares (fun = residual(x), x within bounds; nothing is assumed about cost) *)
+Theorem generated_fit_reports_rms_partial :
+  forall (calc : bool) (L P : list R -> R -> R)
+         (lsq : (list R -> list R) -> list R -> list (R * R) -> option (list R * list R * R * R)),
+  (forall f x0 b x fv c o, lsq f x0 b = Some (x, fv, c, o) -> fv = f x /\ in_bounds b x) ->
+  forall pressure loading lr prr x0 b x e,
+    gen_fit calc L P lsq pressure loading lr prr x0 b = Ok (x, e) ->
+    in_bounds b x
+    /\ e = sqrt (sumsqR (map (fun d => if calc then L x (fst d) - snd d else P x (snd d) - fst d) (combine pressure loading)) / INR (length loading))
+           / (if calc then snd lr - fst lr else snd prr - fst prr).
+Proof. exact gen_fit_reports_rms. Qed.
+Print Assumptions generated_fit_reports_rms_partial.
+(* the hand-written model executed beside the implementation on every run (rmse_sq / resid of Fit/FitLogic.v) agrees with the generated glue *)
+Theorem executed_model_is_generated_glue :
+  (forall fv x cost opt pr ld range, ld <> [] -> range <> 0 ->
+     rmse_sq RNum fv (length ld) range = BaseFit_rmse fv x cost opt pr ld range * BaseFit_rmse fv x cost opt pr ld range)
+  /\ (forall calc (L P : list R -> R -> R) x pr ld,
+       rows2 (BaseFit_residual calc (L x) (P x)) pr ld = resid RNum calc (if calc then L else P) x (combine pr ld))
+  /\ (forall calc (lr prr : R * R), BaseFit_model_range calc lr prr = if calc then snd lr - fst lr else snd prr - fst prr).
+Proof. exact (conj base_rmse_squared_is_executed_model (conj generated_residual_is_executed_model generated_range_is_max_minus_min)). Qed.
+Print Assumptions executed_model_is_generated_glue.
 
 (* bounds (and start values) are dictionaries keyed by parameter NAME. The vector handed to the optimiser at position i is the entry of
    param_names[i], for ANY order in which the user wrote the dictionary (and a missing name is a KeyError, never another parameter's entry) *)
@@ -226,3 +259,9 @@ Proof.
   intros y Ly. destruct y as [|a [|? ?]]; try discriminate. unfold sse, henryM; simpl.
   pose proof (Rle_0_sqr (a * 1 - 2)). pose proof (Rle_0_sqr (a * 2 - 4)). unfold Rsqr in *. lra.
 Qed.
+(* the generated fit runs: an optimiser returning the start vector and a cost unrelated to the residuals; Henry-like model on two rows *)
+Example generated_fit_example :
+  let lsq := fun (f : list R -> list R) (x0 : list R) (b : list (R * R)) => Some (x0, f x0, 123, 0) in
+  gen_fit true (fun x p => nth 0 x 0 * p) (fun _ l => l) lsq [1; 2] [3; 5] (3, 5) (1, 2) [2] []
+  = Ok ([2], sqrt (((2 * 1 - 3) * (2 * 1 - 3) + ((2 * 2 - 5) * (2 * 2 - 5) + 0)) / INR 2) / (5 - 3)).
+Proof. exact gen_fit_example. Qed.
